@@ -109,7 +109,9 @@ def run(ctx):
             if api == "rejection":
                 return joker.rejection_sample(pb.data, arg, n_batches=3, n_linear_samples=2,
                                               return_logprobs=(kind != "int"))
-            return joker.iterative_rejection_sample(pb.data, arg, n_requested_samples=2, init_batch_size=20, n_batches=2,
+            # (a small first batch and several requested samples: the loop needs more than one iteration, so "the last invocation"
+            # of the batch readers lies in a later iteration)
+            return joker.iterative_rejection_sample(pb.data, arg, n_requested_samples=6, init_batch_size=6, n_batches=2,
                                                     return_logprobs=True, n_linear_samples=2)
 
         def post_conditions(desc, when):
